@@ -40,7 +40,7 @@ def _parse(files):
         events, expected = [], []
         for _, st in steps[1:]:
             events.append(tuple(st["ev"]))
-            expected.append((st["v"]["r1"], st["v"]["r2"], st["v"]["r3"]))
+            expected.append((st["v"]["r1"], st["v"]["r2"], st["v"]["r3"], st["v"]["r4a"] + 2 * st["v"]["r4b"]))
         out.append((cfg, events, expected))
     return out
 
@@ -52,7 +52,7 @@ def _worker(files):
         feats = {"both_edges": any(e[0] == "clk" for e in job[1]) and any(
             e[0] == "clk" and i > 0 for i, e in enumerate(job[1])), "wrappers": len(job[0]["ws"])}
         res.append((repr((job[0], job[1])), feats, mm, {"cfg": job[0], "events": [list(e) for e in job[1][:8]],
-                                                         "expected_r1_r2_r3": [list(e) for e in job[2][:8]]}))
+                                                         "expected_r1_r2_r3_r4": [list(e) for e in job[2][:8]]}))
     return res
 
 
@@ -89,7 +89,7 @@ def run(ctx):
                 key = {"ws": [(w["k"], w["dom"], w.get("c", w.get("to"))) for w in cfg["ws"]],
                        "A": (cfg["A"]["edge"], cfg["A"]["rst"]), "B": (cfg["B"]["edge"], cfg["B"]["rst"]),
                        "d1": cfg["d1"], "d2": cfg["d2"], "error": mm.get("error", "").split(":")[0]}
-                ctx.violation(key, "design %s: after event #%d %s registers (r1, r2, r3) = %s, AmDesign says %s%s" % (
+                ctx.violation(key, "design %s: after event #%d %s registers (r1, r2, r3, r4) = %s, AmDesign says %s%s" % (
                     cfg, mm["step"], mm.get("event"), mm.get("actual"), mm.get("expected"), (" " + mm["error"]) if "error" in mm else ""),
                     replay=mm)
     ctx.cov["stages"]["replay/behaviours"] = {"behaviours": n, "events_each": depth, "by_wrapper_stack_depth": stacks}
